@@ -448,7 +448,12 @@ def main(run):
     shards = [idx[k:k + 1000] for k in range(0, len(idx), 1000)]
     def ev(a):
         n, sh = a
-        okc, out = common.coq_eval("C06_%d_%d" % (os.getpid(), n), coq_cases(sh, obs, n))
+        name = "C06_%d_%d" % (os.getpid(), n)
+        try:
+            okc, out = common.coq_eval(name, coq_cases(sh, obs, n))
+        finally:
+            try: os.remove(os.path.join(common.GEN, "cases_%s.v" % name))
+            except OSError: pass
         ids = common.parse_bad_ids(out) if okc else None
         if ids is None:
             raise RuntimeError("cases file did not evaluate:\n" + out[-2000:])
